@@ -370,6 +370,15 @@ func clause(m *Member, d OpDesc, o, depth int) (qframe.FilterClause, string) {
 	}
 }
 
+// withRepeat names one of the columns twice (not last), one time in four.
+func withRepeat(cols []string, d OpDesc, o int) []string {
+	if len(cols) == 0 || pick(d, o)%4 != 0 {
+		return cols
+	}
+	k := pick(d, o+1) % len(cols)
+	return append(append(append([]string{}, cols[:k+1]...), cols[k]), cols[k+1:]...)
+}
+
 func subset(names []string, d OpDesc, o int) []string {
 	var out []string
 	mask := pick(d, o) | pick(d, o+1)<<8
@@ -707,7 +716,7 @@ func resolveFrame(w *World, d OpDesc, recv, other *Member, client int) *Exec {
 		ex.Desc = fmt.Sprintf("%s.WithRowNums(%q)", id, dst)
 		ex.Run = func() *Outcome { return frameOutcome(f.WithRowNums(dst), ex.Desc, client, false) }
 	case "distinct":
-		cols := subset(names, d, 0)
+		cols := withRepeat(subset(names, d, 0), d, 5)
 		null := p(3)%2 == 0
 		ex.Desc = fmt.Sprintf("%s.Distinct(%q, null=%v)", id, cols, null)
 		ex.Mutual = true
@@ -739,7 +748,7 @@ func resolveFrame(w *World, d OpDesc, recv, other *Member, client int) *Exec {
 			return out
 		}
 	case "groupby":
-		cols := subset(names, d, 0)
+		cols := withRepeat(subset(names, d, 0), d, 5)
 		if p(4)%4 == 0 {
 			cols = nil
 		}
@@ -752,7 +761,7 @@ func resolveFrame(w *World, d OpDesc, recv, other *Member, client int) *Exec {
 			return &Outcome{Canon: canonGrouper(g), New: []*Member{{Kind: KGrouper, G: g, Origin: ex.Desc, Owner: client, Keys: cols, ArgCheck: check}}, ArgChanged: check()}
 		}
 	case "aggregate-direct":
-		cols := subset(names, d, 0)
+		cols := withRepeat(subset(names, d, 0), d, 5)
 		null := p(3)%2 == 0
 		ex.Desc = fmt.Sprintf("%s.GroupBy(%q, null=%v).Aggregate(...)", id, cols, null)
 		ex.Mutual = true
@@ -860,6 +869,19 @@ func resolveFrame(w *World, d OpDesc, recv, other *Member, client int) *Exec {
 				keys = append(keys, k+":"+string(v))
 			}
 			sort.Strings(keys)
+			// what the accessors return is the caller's: it is overwritten and extended
+			ns, ts := f.ColumnNames(), f.ColumnTypes()
+			for i := range ns {
+				ns[i] = scribble
+			}
+			for i := range ts {
+				ts[i] = "scribbled"
+			}
+			_, _ = append(ns, scribble), append(ts, "scribbled")
+			for k := range tm {
+				tm[k] = "scribbled"
+			}
+			tm[scribble] = "scribbled"
 			// ByteSize walks a Go map and calls per-column loops from inside it:
 			// the order in which its scheduling points are passed would depend on
 			// Go's map iteration order (N6), so it runs without scheduling points.
